@@ -238,7 +238,16 @@ Theorem sql_engine_reads_intended :
 Proof. exact (fun d e p => SqlProofs.sql_engine_reads_intended d e p sql_tables_ok). Qed.
 Print Assumptions sql_engine_reads_intended.
 
-(* the text layer under Theta-1 is NOT safe: two tokens can fuse (F3) *)
+(* the text layer under Theta-1: a prefix `-` template directly followed by an unparenthesised construct
+   that itself starts with `-`.  FULL STATEMENT (false, F3): adjacency_bad d = [].  Exactly one pair: neg over neg.
+   (Negative literals cannot be operands of std.neg after static_eval: they are folded.) *)
+Definition k_neg : str := (k_tmpl ++ [110;101;103])%N.
+Theorem adjacency_only_neg_neg :
+  forallb (fun d => match adjacency_bad d with [(p, c)] => leqb p k_neg && leqb c k_neg | _ => false end) [d_sqlite; d_generic] = true.
+Proof. vm_compute. reflexivity. Qed.
+Print Assumptions adjacency_only_neg_neg.
+
+(* ... and the witness: two tokens fuse into an SQL comment (F3) *)
 Theorem adjacency_unsafe_neg_neg :
   sql_text d_sqlite (PUnE U_Neg (PUnE U_Neg (PCol 0))) = Some [45; 45; 97]%N.   (* "--a": an SQL comment *)
 Proof. vm_compute. reflexivity. Qed.
